@@ -201,6 +201,23 @@ def leaves : It σ → List σ
   | .leaf s => [s]
   | .mix _ a b => a.leaves ++ b.leaves
 
+/-- number of sources -/
+def nleaves : It σ → Nat
+  | .leaf _ => 1
+  | .mix _ a b => a.nleaves + b.nleaves
+
+/-- the tree with its `k`-th source (left to right, from 0) changed by `f` — what happens when somebody appends to the
+partition under a cursor: the mixers are not told -/
+def modifyLeaf (f : σ → σ) : Nat → It σ → It σ
+  | k, .leaf s => if k = 0 then .leaf (f s) else .leaf s
+  | k, .mix m a b =>
+    if k < a.nleaves then .mix m (modifyLeaf f k a) b else .mix m a (modifyLeaf f (k - a.nleaves) b)
+
+/-- every source changed by `f` -/
+def mapLeaves (f : σ → σ) : It σ → It σ
+  | .leaf s => .leaf (f s)
+  | .mix m a b => .mix m (mapLeaves f a) (mapLeaves f b)
+
 instance : Source (It σ) := ⟨get, next, release, setBackward⟩
 
 end It
@@ -257,6 +274,9 @@ def next (l : Leaf) : Leaf :=
 
 def release (l : Leaf) : Leaf := l
 def setBackward (bk : Bool) (l : Leaf) : Leaf := { l with bkwd := bk }
+
+/-- a record is appended to the slice under the iterator (a writer adds to the partition) -/
+def append (r : Rec) (l : Leaf) : Leaf := { l with les := l.les ++ [r] }
 
 instance : Source Leaf := ⟨get, next, release, setBackward⟩
 
